@@ -12,7 +12,10 @@ ATOMS = [
     "name like 'a%'", "name = '*.txt'", "name != 'b*'", "name === 'a.txt'", "name =~ '^[ab]'", "name !=~ 'x$'", "ext = 'txt'",
     "is_dir = false", "is_dir = true", "is_file = 1", "hardlinks >= 1", "length(name) > 3", "uid = 0", "mode = '-rw-r--r--'",
     "size not between 5 and 50", "name not like 'a%'",
+    # bare boolean columns and functions (the documented shorthand for `= true`)
+    "is_dir", "is_file", "is_hidden", "contains('xxxxx')",
 ]
+BARE = ["is_dir", "is_file", "is_hidden", "contains('xxxxx')"]
 
 
 def build_tree(ctx):
@@ -20,7 +23,7 @@ def build_tree(ctx):
     root = os.path.join(ctx.scratch, "b")
     os.mkdir(root)
     sizes = [0, 4, 5, 9, 10, 11, 50, 51, 99, 100, 101, 1000]
-    names = ["a.txt", "a", "ab", "b.txt", "b", "x", "ax", "c.rs", "abcd.txt", "bx", "A.TXT", "zzzz"]
+    names = ["a.txt", "a", "ab", "b.txt", "b", "x", "ax", "c.rs", "abcd.txt", "bx", "A.TXT", "zzzz", ".a.txt", ".b"]
     k = 0
     for d in ("", "d1", "d2"):
         dp = os.path.join(root, d)
@@ -140,7 +143,9 @@ def run(ctx):
     comp_pairs = [("size between 5 and 50", "size not between 5 and 50"), ("size between 10 and 100", "size not between 10 and 100"), ("size between 0 and 1000", "size not between 0 and 1000"),
                   ("size between 11 and 11", "size not between 11 and 11"), ("length(name) between 2 and 5", "length(name) not between 2 and 5"),
                   ("name like 'a%'", "name not like 'a%'"), ("name like '%.txt'", "name notlike '%.txt'"), ("size = 10", "size != 10"), ("size > 10", "size <= 10"), ("size >= 50", "size < 50"),
-                  ("name =~ '^[ab]'", "name !=~ '^[ab]'"), ("name = '*.txt'", "name != '*.txt'"), ("name === 'a.txt'", "name !== 'a.txt'"), ("is_dir = true", "is_dir != true")]
+                  ("name =~ '^[ab]'", "name !=~ '^[ab]'"), ("name = '*.txt'", "name != '*.txt'"), ("name === 'a.txt'", "name !== 'a.txt'"), ("is_dir = true", "is_dir != true"),
+                  ("is_dir", "not is_dir"), ("is_hidden", "not is_hidden"), ("is_file", "not is_file"), ("contains('xxxxx')", "not contains('xxxxx')"),
+                  ("is_dir", "is_dir = false"), ("is_hidden", "is_hidden != true"), ("not is_dir", "is_dir = true"), ("not not is_hidden", "not is_hidden")]
     for a, b, (_, ra, qa), (_, rb, qb) in [(a, b, atom_rows(a), atom_rows(b)) for a, b in comp_pairs]:
         st_case = {"tree": root, "queries": [qa["query"], qb["query"]]}
         if ra is None or rb is None or qa["status"] != 0 or qb["status"] != 0:
@@ -155,6 +160,10 @@ def run(ctx):
     # bounded-exhaustive: every formula shape up to a size bound over three atoms
     bound = 5 if ctx.tier == "quick" else 7
     triples = [rng.sample([a for a in ATOMS if a in truth_of], 3) for _ in range(4 if ctx.tier == "quick" else 12)]
+    # a bare boolean atom takes part in at least half of the exhaustive triples
+    for j, tr in enumerate(triples):
+        if j % 2 == 0 and not any(a in BARE for a in tr):
+            tr[rng.randrange(3)] = rng.choice([a for a in BARE if a in truth_of])
     for atoms in triples:
         for size in range(1, bound + 1):
             fs = all_formulas(size, 3)
@@ -175,7 +184,7 @@ def run(ctx):
 
     st = dict(agreed=0, distinct=set(), samples=[], hist=collections.Counter())
     for (atoms, f), text, rows, r in pmap(one, jobs):
-        case = {"tree": "12 names x 3 directories, sizes 0..1000 (see vlib/c03.py build_tree)", "query": r["query"], "atoms": atoms}
+        case = {"tree": "14 names x 3 directories, sizes 0..1000 (see vlib/c03.py build_tree)", "query": r["query"], "atoms": atoms}
         if rows is None or r["status"] != 0:
             ctx.violation("impl-violates-spec", "status %s stderr %r" % (r["status"], r["stderr"][:200]), input=case)
             continue
@@ -198,6 +207,6 @@ def run(ctx):
             st["samples"].append({"where": text, "rows": bin(got).count("1"), "of": len(universe)})
     ctx.coverage.update(
         evaluations=len(jobs) + len(ATOMS), distinct_nontrivial=len(st["distinct"]), traces_validated_against_impl=st["agreed"],
-        rule="tree of 36 files (sizes around the literals: v-1, v, v+1; names around the patterns) realising the truth assignments of %d atoms of every operator kind (incl. between / not between / not like, boolean, regex, glob, function); EVERY formula shape up to %d nodes over three atoms (x several atom triples) plus random formulas to depth 5, rendered with minimal or redundant brackets in both styles and prefix `not`; the documented complements between atoms (between / not between with bounds that occur in the tree, like / not like, each comparison and its opposite) are checked directly; the formula's result set must equal the Boolean combination (and = intersection, or = union, not = complement) of the atoms' own result sets. non-trivial = >= 3 nodes and a proper non-empty result" % (len(ATOMS), bound),
+        rule="tree of 42 files incl. hidden ones (sizes around the literals: v-1, v, v+1; names around the patterns) realising the truth assignments of %d atoms of every operator kind (incl. between / not between / not like, boolean with and without `= true`, bare boolean function, regex, glob, function); EVERY formula shape up to %d nodes over three atoms (x several atom triples) plus random formulas to depth 5, rendered with minimal or redundant brackets in both styles and prefix `not`; the documented complements between atoms (between / not between with bounds that occur in the tree, like / not like, each comparison and its opposite) are checked directly; the formula's result set must equal the Boolean combination (and = intersection, or = union, not = complement) of the atoms' own result sets. non-trivial = >= 3 nodes and a proper non-empty result" % (len(ATOMS), bound),
         samples=st["samples"], distribution=dict(st["hist"]), exhaustive_up_to_size=bound)
     return ctx.finish(trusted=["atom truth values are taken from the implementation's own single-atom runs (their meaning is C02's subject)"])
